@@ -19,11 +19,10 @@ def cmd_gentables(argv):
     except translate.TranslateError as e:
         # reported by the property checks; setup keeps the previous GenLib.v
         common.log("GenLib translation failed: %s" % e)
-    try:
-        print(imp_translate.write(imp_translate.generate()))
-    except translate.TranslateError as e:
-        # reported by the property checks (C05, C10); setup keeps the previous GenImp.v
-        common.log("GenImp translation failed: %s" % e)
+    text, errors = imp_translate.generate()
+    print(imp_translate.write(text))
+    for e in errors:
+        common.log("GenImp: not translated: %s" % e)   # reported by the property checks (C05, C10)
     return 0
 
 
